@@ -169,6 +169,19 @@ pub fn path_sets(tier: Tier) -> Vec<PathSet> {
 
 pub fn spaces(tier: Tier) -> Vec<Space<'static>> {
     let mut sp: Vec<Space> = vec![];
+    {
+        let paths = mk(crate::checks::scale::path_menu());
+        let sd = crate::checks::scale::docs().clone();
+        sp.push(Space::new("scale: path menu x big documents", paths.len() as u64, move |i, acc| {
+            let (p, ip) = &paths[i as usize];
+            for d in sd.iter() {
+                if d.bytes.len() > 700_000 {
+                    continue;
+                }
+                judge(p, ip, &d.val, &d.bytes, acc);
+            }
+        }));
+    }
     for ps in path_sets(tier) {
         let n = ps.paths.len() as u64;
         let (paths, docs) = (ps.paths.clone(), ps.docs.clone());
